@@ -256,9 +256,9 @@ def gen_eof(rnd, tier, cases):
         cases.append({'lines': ['ns_restore ' + hx(c) for c in conts[i:i + 5]], 'tags': {'family': 'ns-eof-restoreobjects'}})
 
 
-def nss_case(max_, chunks, fam, mode=None, rnd=None):
+def nss_case(max_, chunks, fam, mode=None, rnd=None, close='clean'):
     modes = [mode] if mode else ['sync', 'co']
-    lines = ['nss_read max=%d mode=%s %s' % (max_, m, ','.join(hx(c) for c in chunks)) for m in modes]
+    lines = ['nss_read max=%d mode=%s close=%s %s' % (max_, m, close, ','.join(hx(c) for c in chunks)) for m in modes]
     return {'lines': lines, 'tags': {'family': fam}}
 
 
@@ -275,6 +275,29 @@ def gen_stream(rnd, tier, cases):
         fr = [rand_payload(rnd, rnd.choice((0, 1, 3, 10))) for _ in range(rnd.randint(1, 3))]
         s = mutate(rnd, b''.join(nsw(p) for p in fr))
         cases.append(nss_case(rnd.choice((-1, 3, 11)), rand_chunks(rnd, s, rnd.choice((2, 50))), 'nss-hostile', mode=rnd.choice(('sync', 'co'))))
+    # the peer closes at EVERY offset of a frame sequence (cleanly with close_notify, or by dropping the transport): never a hang,
+    # never a partial message, the frames before the cut are delivered
+    for fr in ([b'hi', b''], [b'0123456789', b'x']):
+        s = b''.join(nsw(p) for p in fr)
+        lines = []
+        for cut in range(len(s) + 1):
+            t = s[:cut]
+            ch = rand_chunks(rnd, t, rnd.choice((1, 3, 50)))
+            lines.append('nss_read max=-1 mode=%s close=%s %s' % (rnd.choice(('sync', 'co')), rnd.choice(('clean', 'abrupt')), ','.join(hx(c) for c in ch)))
+        for i in range(0, len(lines), 6):
+            cases.append({'lines': lines[i:i + 6], 'tags': {'family': 'nss-peer-closes'}})
+    # JsonRpc::ReadMessage + DecodeMessage as the connection's reader coroutine runs them, peer closing anywhere
+    msgs = [b'{"jsonrpc":"2.0","method":"event::Heartbeat","params":{"timeout":120}}', b'{}', b'[1]', b'{"a":', b'{"k":"\\u00e4\\n"}', b'null']
+    for i in range(40 if big else 14):
+        fr = [rnd.choice(msgs) for _ in range(rnd.randint(1, 3))]
+        s = b''.join(nsw(p) for p in fr)
+        lines = []
+        for _ in range(3):
+            k = rnd.random()
+            t = s if k < 0.3 else s[:rnd.randrange(len(s) + 1)] if k < 0.8 else mutate(rnd, s)
+            lines.append('nss_msg max=%d mode=%s close=%s %s' % (rnd.choice((-1, 1 << 20, 20)), rnd.choice(('sync', 'co')), rnd.choice(('clean', 'abrupt')),
+                                                               ','.join(hx(c) for c in rand_chunks(rnd, t, rnd.choice((2, 20, 200))))))
+        cases.append({'lines': lines, 'tags': {'family': 'nss-messages'}})
     # the limit is enforced before the payload is read (1 MiB for anonymous peers)
     M = 1 << 20
     for n, payload in ((M + 1, 4096), (M + 1, 0), (M, 100), (999999999, 4096), (999999999, 0), (M * 2, 70000)):
@@ -534,7 +557,7 @@ def extra_stats(cases, impl):
                     st['frames_delivered'] += m.group(1).count(',') + 1
                 if 'st=err' in l:
                     st['buffered_errors'] += 1
-            elif l.startswith('nss_read'):
+            elif l.startswith('nss_read') or l.startswith('nss_msg'):
                 st['stream_errors'] += 'end=err' in l
                 st['stream_short'] += 'end=short' in l
             elif l.startswith('js_rt enc'):
